@@ -695,3 +695,28 @@ def _replay_charac_vals(model, contract):
 for _k, _wd in (("model:Characteristic.vals#with_denominator", True), ("model:Characteristic.vals#without_denominator", False)):
     CONTRACTS[_k]["replay_hook"] = _replay_charac_vals
     CONTRACTS[_k]["with_denominator"] = _wd
+
+
+# ---- the stepping methods that must do nothing: a junction is empty at every step (C04), a source is an unlimited reservoir whose
+# recorded size never changes (C01: "sources excluded"), a sink emits nothing, a junction's flows are set by balance() only
+for _cls, _meth, _props in (("JunctionCompartment", "update", ["C04", "C01"]), ("SourceCompartment", "update", ["C01"]),
+                            ("SinkCompartment", "resolve_outflows", ["C01", "C02"]), ("JunctionCompartment", "resolve_outflows", ["C04", "C01"])):
+    CONTRACTS["model:%s.%s" % (_cls, _meth)] = dict(
+        schema=schema, params={"ti": "int"}, self_classes=[_cls] if _cls != "JunctionCompartment" else ["JunctionCompartment", "ResidualJunctionCompartment"],
+        requires=["0 <= ti"], modifies=[], ensures=[("%s.nothing_is_written" % "+".join(_props), "True")],
+        frame_props=_props, defined_props=_props)
+
+
+# ---- Parameter.source_popsize (C03: "a number N moves N*dt/T people shared over the parameter's source compartments in proportion to
+# their sizes"): the denominator of that sharing.  Under the cache invariant (an entry for index ti holds the current total) the
+# result IS the current total size of the source compartments of all links of the parameter, and the invariant holds afterwards.
+_src_total = "sum(l.source.vals[ti] for l in self.links)"
+_pop_cache_ok = "implies(self._source_popsize_cache_time is not None and self._source_popsize_cache_time == ti, self._source_popsize_cache_val == %s)" % _src_total
+CONTRACTS["model:Parameter.source_popsize"] = dict(
+    schema=schema, params={"ti": "int"},
+    requires=["0 <= ti", "all(not isinstance(l.source, TimedCompartment) for l in self.links)", "all(ti < len(l.source.vals) for l in self.links)", _pop_cache_ok],
+    modifies=["self._source_popsize_cache_time", "self._source_popsize_cache_val"],
+    raises={"ModelError": "len(self.links) == 0 and not (self._source_popsize_cache_time is not None and self._source_popsize_cache_time == ti)"}, raises_props=["C03"],
+    ensures=[("C03.denominator_is_the_current_total_of_the_source_compartments", "result == %s" % _src_total),
+             ("C03.the_cache_stays_valid", "self._source_popsize_cache_time == ti and self._source_popsize_cache_val == %s" % _src_total)],
+    frame_props=["C03"], defined_props=["C03"])
